@@ -11,5 +11,12 @@ for d in sorted(glob.glob(os.path.join(HERE, "seeded", "C*"))):
     now = sorted({f.split(" key: ")[1].split("|")[0] + " (" + f.split()[0] + ")" for f in m.get("checks_now", {}).get("fired", [])})
     a = "yes" if arr.get("caught") else "**no**"
     if arr.get("by"):
-        a += " (" + ", ".join(sorted({b.split()[0] + " " + b.split()[1] for b in arr["by"] if len(b.split()) > 1})) + ")"
+        def short(b):
+            w = b.split()
+            if len(w) > 2 and w[1] == "key:":
+                return w[0] + " " + w[2].split("|")[0]
+            return w[0] + " " + w[1] if len(w) > 1 else b
+        a += " (" + ", ".join(sorted({short(b) for b in arr["by"]})) + ")"
+    if arr.get("caught") and arr.get("caught_by_own_property") is False:
+        a = a.replace("yes", "by another property's check only", 1)
     print("| %s | %s | %s | %s | %s |" % (os.path.basename(d), m["property"], (m.get("title") or "").replace("|", "/"), a, ", ".join(now) or "**nothing**"))
